@@ -307,6 +307,10 @@ pub enum Strategy {
     FreezeThenSolo { delay: usize, bound: usize },
     /// a fixed sequence of phases, then random
     Script(Vec<Ph>),
+    /// two holds: `victim` is not scheduled from its `at1`-th step on until nobody else can move (or the others
+    /// have made `run1` steps), then runs up to its `at2`-th step, is held again until nobody else can move, and
+    /// runs freely afterwards
+    Stall2 { victim: usize, at1: usize, run1: usize, at2: usize },
 }
 
 /// one phase of a scripted schedule
@@ -367,6 +371,8 @@ pub fn control(s: &Arc<Sched>, strat: &Strategy, rng: &mut Rng, budget: usize) -
     }
     let mut replay_pos = 0usize;
     let mut script_pos = 0usize;
+    let mut s2_phase = 0usize; // 0 before/at first hold, 1 released, 2 second hold, 3 free
+    let mut s2_others = 0usize;
     let mut script_used = 0usize;
     let mut low = 0u64;
     let mut solo_active = false;
@@ -557,6 +563,28 @@ pub fn control(s: &Arc<Sched>, strat: &Strategy, rng: &mut Rng, budget: usize) -
                 }
             }
             Strategy::Solo { .. } => cands[rng.below(cands.len())],
+            Strategy::Stall2 { victim, at1, run1, at2 } => {
+                let vsteps = g.threads.get(*victim).map(|t| t.steps).unwrap_or(0);
+                let others: Vec<usize> = cands.iter().cloned().filter(|&i| i != *victim).collect();
+                let hold = match s2_phase {
+                    0 => vsteps >= *at1,
+                    1 => {
+                        if vsteps >= *at1 + *at2 { s2_phase = 2; true } else { false }
+                    }
+                    2 => true,
+                    _ => false,
+                };
+                if hold && !others.is_empty() && !(s2_phase == 0 && s2_others >= *run1) {
+                    if s2_phase == 0 { s2_others += 1; }
+                    others[rng.below(others.len())]
+                } else if hold {
+                    // nobody else can move (or the first hold has lasted long enough): release
+                    s2_phase = if s2_phase == 0 { 1 } else { 3 };
+                    if cands.contains(victim) { *victim } else { cands[rng.below(cands.len())] }
+                } else {
+                    cands[rng.below(cands.len())]
+                }
+            }
             Strategy::Script(ph) => {
                 let nth = g.threads.len();
                 loop {
